@@ -167,7 +167,11 @@ def run_suite(suite, seed, count, tier, timeout=1500):
     except subprocess.TimeoutExpired:
         res["error"] = "harness timeout"
         return res
-    if rc != 0:
+    if rc == 3:
+        # the harness itself panicked: the transcript up to that point is used, the panic is a broken tie
+        m = re.search(r"^X\tharness-panic\t(.*)$", out, flags=re.M)
+        res["error"] = f"harness panicked after {out.count(chr(10) + 'T' + chr(9))} lines: {m.group(1)[:300] if m else ''}"
+    elif rc != 0:
         res["error"] = f"harness exit {rc}: {err[-400:]}"
         return res
     reqs, resps = [], []
@@ -268,7 +272,8 @@ def check(pid, tier, seed):
     if cb["ok"] and os.path.exists(MBIN):
         for suite, qn, tn in cfg["suites"]:
             n = qn if tier == "quick" else tn
-            r = run_suite(suite, seed, n, tier)
+            # a change that makes the real code loop must not stall the quick check for long
+            r = run_suite(suite, seed, n, tier, timeout=300 if tier == "quick" else 3000)
             suites.append(r)
             if r["error"]:
                 tie_broken.append({"kind": "correspondence", "what": f"suite {suite}: {r['error']}"})
